@@ -176,6 +176,9 @@ def judge (case impl : String) : String :=
   match decCase case with
   | none => "skip"
   | some c =>
+    -- the theorems of Props/C11Spec are about definition maps whose dictionaries are genuine maps
+    -- (keys strictly increasing, `wfDefs`); every case must be inside that domain
+    if !PageTreeSpec.wfDefs c.defs then "bad notmap a dictionary of the case is not a sorted map" else
     match expected c with
     | none => "skip"
     | some e =>
